@@ -99,7 +99,7 @@ PROPS["C06"] = dict(
         dict(harness="h_fe", flavor="fast", quick=500, thorough=12000, name="h_fe_fast"),
     ],
     floor=dict(min_evaluations=100, counters={"variant_runs": 500, "variants_float32": 50, "variants_tiny_chunks": 50,
-                                             "variants_huge_chunks": 20, "calls_output_limited": 100}),
+                                             "variants_huge_chunks": 20, "calls_output_limited": 100, "variants_other_byte_order": 50}),
     assumptions=[A_SAN, A_GEN],
 )
 
@@ -122,7 +122,7 @@ PROPS["C13"] = dict(
         dict(harness="h_fsgxf", flavor="fast", quick=4000, thorough=120000, name="h_fsgxf_fast"),
     ],
     floor=dict(min_evaluations=1000, min_distinct=300, counters={"closures_checked": 1000, "roundtrips_compared": 300, "silence_checked": 1000,
-                                                                 "alt_checked": 200, "filler_insertions_checked": 500, "built_from_text": 200, "sparse_grammars": 100}),
+                                                                 "alt_checked": 200, "filler_insertions_checked": 500, "built_from_text": 200, "sparse_grammars": 100, "grammars_with_scattered_state_numbers": 40, "grammars_with_a_hub_state": 15}),
     assumptions=[A_SAN, A_GEN],
 )
 
@@ -180,7 +180,7 @@ PROPS["C01"] = _decode_prop(
     _SCEN + "Non-trivial = a hypothesis was returned or partial results were observed; distinct = hash of (grammar text, audio, hypothesis).",
     dict(min_evaluations=200, min_distinct=60, counters={"final_results_checked": 100, "partial_results_checked": 100, "final_no_hypothesis": 5,
                                                         "grammar_fsg-text": 20, "grammar_jsgf-right-linear": 20, "grammar_jsgf-slots": 20, "grammar_align-text": 20,
-                                                        "vocabularies_with_prefix_pairs": 20}))
+                                                        "vocabularies_with_prefix_pairs": 20, "fsg_texts_with_nonzero_start_state": 10}))
 
 PROPS["C03"] = _decode_prop(
     "C03", "Word segmentation tiles the utterance and agrees with hypothesis and score", "C03",
@@ -264,7 +264,7 @@ PROPS["C07"] = _diff_prop(
     "one case = one (model, search parameters, grammar, audio) with its variant runs; non-trivial = the reference produced a segmentation; "
     "distinct = hash of (reference record, grammar).",
     dict(min_evaluations=60, min_distinct=20, counters={"variants_compared": 300, "variant_first_chunk_lt_1_frame": 50, "variant_full_utt": 10,
-                                                       "variant_buffered": 50, "variant_float32": 30, "references_with_alignment": 20, "partial_queries": 100}),
+                                                       "variant_buffered": 50, "variant_interleaved_buffering": 30, "variant_float32": 30, "references_with_alignment": 20, "partial_queries": 100}),
     quick=(80, 160), thorough=(1500, 4000))
 
 PROPS["C08"] = _diff_prop(
@@ -293,7 +293,7 @@ PROPS["C18"] = dict(
     level_note="NaN/Inf samples are outside the statement's list and not generated; quick tier goes to 60 s, thorough to 5 minutes",
     rule="one case = one (configuration, signal, length, encoding, calling pattern); non-trivial = frames were produced; distinct = those parameters.",
     stages=[dict(harness="h_c18", flavor="asan", quick=240, thorough=3000), dict(harness="h_c18", flavor="fast", quick=400, thorough=6000, name="h_c18_fast")],
-    floor=dict(min_evaluations=200, min_distinct=100, counters={"fe_runs": 30, "feat_runs": 30, "feat_runs_with_varnorm": 8, "feat_runs_on_digital_silence": 5, "fe_float32_out_of_range": 3, "decoder_runs": 100, "frames_rescored": 1000,
+    floor=dict(min_evaluations=200, min_distinct=100, counters={"fe_runs": 30, "front_end_shape_variants": 10, "fe_runs_other_byte_order": 5, "fe_float32_full_mantissa": 5, "feat_runs": 30, "feat_runs_with_varnorm": 8, "feat_runs_on_digital_silence": 5, "fe_float32_out_of_range": 3, "decoder_runs": 100, "frames_rescored": 1000,
                                                               "cmn_roundtrips_checked": 50, "normal_utterances_afterwards": 50}),
     assumptions=[A_SAN, A_GEN],
 )
@@ -414,7 +414,7 @@ PROPS["C02"] = dict(
     floor=dict(min_evaluations=300, min_distinct=300, counters={"oracle_runs": 300, "exact_optimum_matches": 120, "agreed_no_alignment_exists": 5, "pruned_scores_not_above_optimum": 20,
                                                               "segmentations_achieve_reported_score": 150, "grammars_with_null_arcs": 40, "grammars_with_one_phone_words": 20,
                                                               "grammars_with_word_loops": 30, "grammars_with_fillers": 100, "grammars_without_fillers": 20, "cionly_cases": 10,
-                                                              "grammars_with_null_chains_and_short_cuts": 15, "oracle_null_closures": 100}),
+                                                              "grammars_with_null_chains_and_short_cuts": 15, "oracle_null_closures": 100, "vocabularies_with_a_word_of_three_pronunciations": 30}),
     assumptions=[A_SAN, A_GEN, "frame scores are the ones the search itself obtained from acmod_score, recorded through hook H1 (compallsen: every senone of every frame)",
                  "the grammar searched is read back from the loaded FSG (that loading preserves the language is C13/C05's subject); between two words a legal "
                  "alignment may pass any chain of its null arcs: the oracle closes them itself (best product over every chain) and does not rely on the composite arcs the library prepared"],
